@@ -53,7 +53,7 @@ manifest = {
     },
     "engines": [
         {"name": "symnum", "path": "engine/symnum.py",
-         "serves_properties": ["C03", "C04", "C05", "C06", "C07", "C10", "C11", "C12", "C14", "C18"],
+         "serves_properties": ["C03", "C04", "C05", "C06", "C07", "C08", "C10", "C11", "C12", "C14", "C15", "C17", "C18", "C19"],
          "kind_free_text": "shadow-symbolic execution of the real library functions on z3-backed "
                            "int/float/Decimal subclasses; DFS by re-execution; z3 discharges "
                            "per-path obligations"},
@@ -68,6 +68,16 @@ manifest = {
         {"name": "stepbmc", "path": "engine/stepbmc.py", "serves_properties": ["C08", "C20"],
          "kind_free_text": "step systems extracted from the AST of the real constructors / caches; "
                            "z3 searches schedules / histories; replay on real threads / processes"},
+        {"name": "tracebmc", "path": "engine/tracebmc.py", "serves_properties": ["C20"],
+         "kind_free_text": "step systems derived from executions of the real constructor under a scripted "
+                           "intern table (all answer scripts by re-execution); z3 searches the interleavings"},
+        {"name": "initbmc", "path": "engine/initbmc.py", "serves_properties": ["C20"],
+         "kind_free_text": "attribute reads/writes, flag reads (scripted) and publish/obtain recorded from "
+                           "executions of the real constructor through descriptors; z3 searches the schedules of a "
+                           "creating and a finding thread for an object handed out half built"},
+        {"name": "memokeys", "path": "engine/memokeys.py", "serves_properties": ["C08"],
+         "kind_free_text": "memo-key soundness: value-keyed lru_cache wrappers called with one symbolic value "
+                           "in two numeric types must answer as the unmemoised body"},
         {"name": "oracle", "path": "engine/oracle.py",
          "serves_properties": ["C04", "C05", "C06", "C09", "C10", "C14"],
          "kind_free_text": "declaration interception and exact Fraction unit sizes; QF_LRA potential-"
